@@ -212,3 +212,8 @@ add("wr_init", ["C08", "C18", "C10", "C09"], ["tu/writer_init.c", "$REPO/mtbl/va
 add("bytes_compare", ["C02", "C08", "C03", "C04", "C09"], ["tu/bytes_compare.c"], "h_bytes_compare", mode="dfcc", enforce="bytes_compare/bytes_compare__spec",
     replace=["memcmp/memcmp__spec"], unwind=8, timeout=300, strength="U", functions=["bytes_compare"],
     assumptions=["memcmp replaced by its ISO C contract in witness form (first differing byte decides, as unsigned char)"])
+add("blk_seek_dfcc", ["C02", "C03", "C11"], ["tu/blk_seek_dfcc.c"], "h_blk_seek_dfcc", mode="dfcc", enforce="block_iter_seek/block_iter_seek__spec",
+    replace=["compare_restart_point/compare_restart_point__spec", "seek_to_restart_point/seek_to_restart_point__spec", "parse_next_key/parse_next_key__spec", "bytes_compare/bytes_compare__cur"],
+    loops="loops/blk_seek.json", unwind=8, timeout=600, strength="U", functions=["block_iter_seek (restart search: galloping + binary search)"],
+    assumptions=["restart keys are sorted (well-formed block): compare_restart_point(i) < 0 exactly for i below a ghost boundary; its own correctness: groups blk_seek_* / blk_restart64",
+                 "the linear scan after the restart search and the current-entry comparison are covered by blk_seek_* (bounded)", "up to 2^31-1 restart points"])
